@@ -101,6 +101,9 @@ mod shared;
 mod sqlx;
 mod time;
 mod util;
+#[cfg(astrolabe_verif)]
+#[doc(hidden)]
+pub mod verif;
 
 pub use self::cron::CronSchedule;
 pub use self::date::Date;
